@@ -19,8 +19,15 @@ def main():
     os.dup2(os.open(os.devnull, os.O_WRONLY), 2)
     from vf import results
 
-    items = json.load(sys.stdin)
-    out = [results.reference(it) for it in items]
+    data = json.load(sys.stdin)
+    if isinstance(data, dict) and data.get("concurrent"):
+        # C12 cold mode: run the jobs concurrently FIRST (nothing was parsed or decompiled in this process yet, so
+        # the shared ANTLR DFA caches are built under thread switches), compute the sequential results afterwards
+        from vf.checks import c12
+
+        json.dump(c12.run_case_here(data["case"], reference_first=False), sys.stdout)
+        return
+    out = [results.reference(it) for it in data]
     json.dump(out, sys.stdout)
 
 
